@@ -14,6 +14,8 @@ EXTENDS Persist, TLC, Json
 CONSTANTS Mode, MaxOps, MaxHist,
           NodeIds, EdgeIds, LabelSeqs, Ends, CreateVals, UpdateVals,   \* "seq" alphabet
           ConcQuotas, ConcKinds,                                       \* "conc": quota values, kinds of creation
+          Main,                                                        \* the tenant the generated calls are for; the others
+                                                                       \* of Tenants are neighbours holding a little data
           CrashOn,                                                     \* "seq": crashes inside calls are explored
           Race                                                         \* KF_C18_CheckThenActRace is part of Next
 
@@ -38,7 +40,7 @@ Ops ==
       \cup {[op |-> "DeleteEdge", t |-> t, id |-> i] : i \in EdgeIds}
       \cup {[op |-> "UpdateNode", t |-> t, id |-> i, p |-> v] : i \in NodeIds, v \in UpdateVals}
       \cup {[op |-> "UpdateEdge", t |-> t, id |-> i, p |-> v] : i \in EdgeIds, v \in UpdateVals}
-      : t \in Tenants}
+      : t \in {Main}}
 
 \* Calls whose effect the properties leave open are not generated: creating an id that exists
 \* (replace or refuse?) and deleting a node that still has relationships (cascade or not?).
@@ -47,6 +49,18 @@ Unambiguous(o) ==
       [] o.op = "CreateEdge" -> o.id \notin DOMAIN G[o.t].e
       [] o.op = "DeleteNode" -> \A e \in DOMAIN G[o.t].e : G[o.t].e[e].src # o.id /\ G[o.t].e[e].dst # o.id
       [] OTHER -> TRUE
+
+\* neighbours (ids that sort next to Main's in the key space) each hold one node and one relationship
+RECURSIVE SetSeq(_)
+SetSeq(S) == IF S = {} THEN <<>> ELSE LET x == CHOOSE y \in S : TRUE IN <<x>> \o SetSeq(S \ {x})
+Nbrs == SetSeq(Tenants \ {Main})
+RECURSIVE SeedFor(_)
+SeedFor(ts) == IF ts = <<>> THEN <<>>
+               ELSE << [op |-> "CreateNode", t |-> Head(ts), id |-> 1, labels |-> <<"A">>, p |-> 1],
+                       [op |-> "CreateEdge", t |-> Head(ts), id |-> 1, src |-> 1, dst |-> 2, ty |-> "T", p |-> 0] >> \o SeedFor(Tail(ts))
+SeedOps == SeedFor(Nbrs)
+\* the script's first record: quotas (the same for every tenant), the tenants to register (Main first), the seed calls
+OpenRec(qn, qe) == [op |-> "Open", qn |-> qn, qe |-> qe, ts |-> <<Main>> \o Nbrs, seed |-> SeedOps]
 
 IsCallRec(r) == r.op \notin {"Open", "Crash", "Restart", "Recover", "Step", "Begin"}
 NumCalls == Len(SelectSeq(hist, IsCallRec))
@@ -62,20 +76,21 @@ StepOf(p) ==
     \/ WalAppend(p) \/ Store(p) \/ Count(p) \/ Ret(p)
 
 \* ------------------------------------------------------------------ "seq"
-SeqInit == PInit(NoLimit) /\ hist = <<[op |-> "Open", qn |-> Unlimited, qe |-> Unlimited]>>
+SeqInit == PInitC(NoLimit, [p \in Procs |-> NoCall], SeedOps) /\ hist = <<OpenRec(Unlimited, Unlimited)>>
 
 SeqNext ==
     \/ \E o \in Ops : NumCalls < MaxOps /\ Unambiguous(o) /\ Begin(P1, o) /\ H(o)
     \/ StepOf(P1) /\ UNCHANGED hist
     \/ CrashOn /\ ~AllIdle /\ Crash /\ H([op |-> "Crash", at |-> pc[P1]])
-    \/ CrashOn /\ AllIdle /\ stale = {} /\ Crash /\ H([op |-> "Crash", at |-> "idle"])
-    \/ AllIdle /\ stale = {} /\ Crash /\ H([op |-> "Restart"])
-    \/ \E t \in stale : AllIdle /\ Recover(t) /\ H([op |-> "Recover", t |-> t])
+    \/ CrashOn /\ AllIdle /\ Main \notin stale /\ Crash /\ H([op |-> "Crash", at |-> "idle"])
+    \/ AllIdle /\ Main \notin stale /\ Crash /\ H([op |-> "Restart"])
+    \* (the harness recovers the neighbours right after Main; they take no part in the generated behaviour)
+    \/ AllIdle /\ Main \in stale /\ Recover(Main) /\ H([op |-> "Recover", t |-> Main])
 
 \* ------------------------------------------------------------------ "conc"
 ConcCall(p, k) ==
-    IF k = "n" THEN [op |-> "CreateNode", t |-> CHOOSE t \in Tenants : TRUE, id |-> p, labels |-> <<"A">>, p |-> 0]
-    ELSE [op |-> "CreateEdge", t |-> CHOOSE t \in Tenants : TRUE, id |-> p, src |-> 1, dst |-> 2, ty |-> "T", p |-> 0]
+    IF k = "n" THEN [op |-> "CreateNode", t |-> Main, id |-> p, labels |-> <<"A">>, p |-> 0]
+    ELSE [op |-> "CreateEdge", t |-> Main, id |-> p, src |-> 1, dst |-> 2, ty |-> "T", p |-> 0]
 
 RECURSIVE Begins(_, _)
 Begins(c, S) == IF S = {} THEN <<>>
@@ -89,12 +104,12 @@ ConcInit ==
         \* the quota of a kind nobody creates is irrelevant: fixed to the smallest value
         /\ (\A p \in Procs : ks[p] # "n") => qn = least
         /\ (\A p \in Procs : ks[p] # "e") => qe = least
-        /\ PInitC([t \in Tenants |-> [n |-> qn, e |-> qe]], c)
-        /\ hist = <<[op |-> "Open", qn |-> qn, qe |-> qe]>> \o Begins(c, Procs)
+        /\ PInitC([t \in Tenants |-> [n |-> qn, e |-> qe]], c, SeedOps)
+        /\ hist = <<OpenRec(qn, qe)>> \o Begins(c, Procs)
 
 ConcNext ==
     \/ \E p \in Procs : StepOf(p) /\ H([op |-> "Step", p |-> p, k |-> pc[p]])
-    \/ \E t \in Tenants : AllIdle /\ NumRecovers < 2 /\ Recover(t) /\ H([op |-> "Recover", t |-> t])
+    \/ AllIdle /\ NumRecovers < 2 /\ Recover(Main) /\ H([op |-> "Recover", t |-> Main])
 
 \* ------------------------------------------------------------------
 Init == IF Mode = "seq" THEN SeqInit ELSE ConcInit
